@@ -808,6 +808,9 @@ type awsChunkReadCloser struct {
 	skipChunkValidation            bool
 	trailerChecksumName            string
 	trailerHasher                  hash.Hash
+	// finished is set once the terminating zero-length chunk (and its trailer)
+	// was read and verified.
+	finished bool
 }
 
 func newAwsChunkReadCloser(ctx context.Context, inner io.ReadCloser, timestamp string, scope string, previousSignature string, verifier signatureVerifier, hasTrailingHeader bool, hasTrailingHeaderWithSignature bool, skipChunkValidation bool, trailerChecksumName string) *awsChunkReadCloser {
@@ -906,7 +909,22 @@ func (r *awsChunkReadCloser) validateTrailerChecksum(checksumHeader string) erro
 	return nil
 }
 
+// Read decodes the aws-chunked body. The payload ends only with the terminating
+// zero-length chunk, after the final chunk signature and the trailer were
+// verified; an end of the underlying body anywhere else means the body was
+// truncated and is reported as io.ErrUnexpectedEOF.
 func (r *awsChunkReadCloser) Read(p []byte) (n int, err error) {
+	if r.finished {
+		return 0, io.EOF
+	}
+	n, err = r.readChunked(p)
+	if err == io.EOF && !r.finished {
+		err = io.ErrUnexpectedEOF
+	}
+	return n, err
+}
+
+func (r *awsChunkReadCloser) readChunked(p []byte) (n int, err error) {
 	if r.chunkBytesRemaining <= 0 {
 		chunkMetadata, err := r.innerBuf.ReadBytes('\n')
 		if err != nil {
@@ -959,6 +977,7 @@ func (r *awsChunkReadCloser) Read(p []byte) (n int, err error) {
 					return 0, err
 				}
 			}
+			r.finished = true
 			return 0, io.EOF // End of the chunked transfer
 		}
 	}
